@@ -580,6 +580,12 @@ pub enum MixOp {
     SearchVector,
     SetVectorTxn { node: u32 },
     NewLabelTxn(String),
+    /// close-time checkpoint (log rewrite) while other threads work
+    Checkpoint,
+    /// vector insertion outside a transaction (public engine entry point)
+    InsertVector { node: u32 },
+    /// property write on an indexed (label, key): index maintenance inside commit
+    SetPropTxn { node: u32, val: i64 },
 }
 
 #[derive(Serialize, Deserialize, Clone, Debug)]
@@ -604,7 +610,10 @@ impl Check for DeadlockCheck {
             let n = rng.range(1, 5) as usize;
             let mut v = Vec::new();
             for i in 0..n {
-                let op = match rng.below(10) {
+                let op = match rng.below(13) {
+                    10 => MixOp::Checkpoint,
+                    11 => MixOp::InsertVector { node: rng.below(2) as u32 },
+                    12 => MixOp::SetPropTxn { node: rng.below(2) as u32, val: rng.below(3) as i64 },
                     0 | 1 => {
                         // independent small transaction (own external ids per thread)
                         let ext = 10_000 * (t as u64 + 1) + i as u64;
@@ -614,7 +623,13 @@ impl Check for DeadlockCheck {
                         })
                     }
                     2 => MixOp::Compact,
-                    3 => MixOp::CreateIndex(rng.pick(&crate::model::LABELS).to_string(), rng.pick(&crate::model::KEYS).to_string()),
+                    3 => {
+                        if rng.chance(0.5) {
+                            MixOp::CreateIndex("LA".into(), "k0".into())
+                        } else {
+                            MixOp::CreateIndex(rng.pick(&crate::model::LABELS).to_string(), rng.pick(&crate::model::KEYS).to_string())
+                        }
+                    }
                     4 => MixOp::SnapshotRead,
                     5 => MixOp::LookupIndex(rng.pick(&crate::model::LABELS).to_string(), rng.pick(&crate::model::KEYS).to_string()),
                     6 => MixOp::NodeCount,
@@ -704,6 +719,17 @@ impl Check for DeadlockCheck {
                                 let _ = tx.get_or_create_label(name);
                                 let _ = tx.commit();
                             }
+                            MixOp::Checkpoint => {
+                                let _ = engine.checkpoint_on_close();
+                            }
+                            MixOp::InsertVector { node } => {
+                                let _ = engine.insert_vector(*node, vec![0.5, 0.5, 1.0]);
+                            }
+                            MixOp::SetPropTxn { node, val } => {
+                                let mut tx = engine.begin_write();
+                                tx.set_node_property(*node, "k0".into(), ndb_storage::property::PropertyValue::Int(*val));
+                                let _ = tx.commit();
+                            }
                         }
                     }
                 }),
@@ -719,8 +745,9 @@ impl Check for DeadlockCheck {
                     // two nodes so that vector operations have targets
                     let e = r.engine.take().unwrap();
                     let mut tx = e.begin_write();
-                    let _ = tx.create_node(1, u32::MAX);
-                    let _ = tx.create_node(2, u32::MAX);
+                    let la = tx.get_or_create_label("LA").unwrap_or(u32::MAX);
+                    let _ = tx.create_node(1, la);
+                    let _ = tx.create_node(2, la);
                     let _ = tx.commit();
                     *slot2.lock().unwrap() = Some(Arc::new(e));
                 }
@@ -792,7 +819,7 @@ impl Check for DeadlockCheck {
         shrink_thread_programs(case)
     }
     fn rule(&self) -> String {
-        "2-5 simulated threads, each a PRNG mix of: small write transactions (some abandoned), compaction, index creation, snapshot + full read, index lookup, node/edge counts (statistics cache), vector insertion and search, first use of a new label. Seeded cooperative scheduler (random with switch probability 0.5%..50%, or PCT depth 1-3); every lock acquisition / atomic access / I/O step is a scheduling point. Violation = the exact deadlock condition (every unfinished thread parked on a lock; the wait-for description is printed) or no completion within the step cap (bounded liveness without faults). The lock-order graph observed across all runs is reported as evidence (edge A->B with the locks common to all observations), never as an alarm. evaluations = simulated runs; distinct_nontrivial = distinct context-switch sequences.".into()
+        "2-5 simulated threads, each a PRNG mix of: small write transactions (some abandoned), compaction, index creation, snapshot + full read, index lookup, node/edge counts (statistics cache), vector insertion (inside a transaction and through the engine's direct entry point) and search, first use of a new label, property writes on an indexed (label, key), close-time checkpoint. The simulated RwLock is writer-preferring in 3 of 4 runs (as std's futex RwLock: no new reader while a writer waits), so a second read lock taken by a thread behind a waiting writer is an exact deadlock. Seeded cooperative scheduler (random with switch probability 0.5%..50%, or PCT depth 1-3); every lock acquisition / atomic access / I/O step is a scheduling point. Violation = the exact deadlock condition (every unfinished thread parked on a lock; the wait-for description is printed) or no completion within the step cap (bounded liveness without faults). The lock-order graph observed across all runs is reported as evidence (edge A->B with the locks common to all observations), never as an alarm. evaluations = simulated runs; distinct_nontrivial = distinct context-switch sequences.".into()
     }
     fn nontrivial_set(&self) -> &'static str {
         "schedules"
